@@ -420,6 +420,9 @@ type built struct {
 	plain []byte // reference serialisation (layout, probes, fault targeting)
 	lines int
 	err   error
+	// urlRewritten: base.ParseURL changed the query of a URL that carries no user-info (the query
+	// is part of "the same URL"; net/url keeps it verbatim)
+	urlRewritten string
 }
 
 func build(e Elem) *built {
@@ -466,6 +469,16 @@ func build(e Elem) *built {
 					return b
 				}
 				req.URL = u
+				if rest, ok := strings.CutPrefix(e.U, "rtsp"); ok {
+					rest = strings.TrimPrefix(strings.TrimPrefix(rest, "s"), "://")
+					auth := rest
+					if i := strings.IndexAny(rest, "/?"); i >= 0 {
+						auth = rest[:i]
+					}
+					if i := strings.IndexByte(rest, '?'); i >= 0 && !strings.Contains(auth, "@") && !strings.Contains(rest, "#") && u.RawQuery != rest[i+1:] {
+						b.urlRewritten = fmt.Sprintf("base.ParseURL(%q): the URL has no user-info, yet its query %q came back as %q", e.U, rest[i+1:], u.RawQuery)
+					}
+				}
 			}
 			if len(e.M) < 2 {
 				b.err = fmt.Errorf("scenario method %q", e.M)
